@@ -145,10 +145,10 @@ private def itemS : Sum (Bytes × Bytes) File → Item
   | .inr f => fileItem f
 
 /-- **multipart_roundtrip** — for every boundary without LF, all fields and all files that a
-multipart body can carry (`FieldOK`, `FileOK`: non-empty names, delimiter-free contents; file
-names may contain ANY bytes): the server reads back exactly the fields, then the files, in
-order — names as `arrive` (exact for every byte a header can carry), content types and file
-bytes exact. -/
+multipart body can carry (`FieldOK`, `FileOK`: non-empty names, delimiter-free contents; field
+names, file names and parameter values may contain ANY bytes): the server reads back exactly the
+fields, then the files, in order — names as `arrive` (exact for every byte a header can carry),
+content types and file bytes exact. -/
 theorem multipart_roundtrip (b : Bytes) (fields : List (Bytes × Bytes)) (files : List File)
     (hb : (10 : UInt8) ∉ b)
     (hfields : ∀ kv ∈ fields, FieldOK b kv) (hfiles : ∀ f ∈ files, FileOK b f) :
@@ -169,7 +169,7 @@ theorem multipart_roundtrip (b : Bytes) (fields : List (Bytes × Bytes)) (files 
     simp only [l, List.mem_append, List.mem_map] at hx
     rcases hx with ⟨kv, hkv, rfl⟩ | ⟨f, hf, rfl⟩
     · have := hfields kv hkv
-      exact itemOf_field kv this.name_ne this.name_safe
+      exact itemOf_field kv this.name_ne
     · exact itemOf_file b f (hfiles f hf)
   unfold serverForm
   rw [hw, parseBody_write b _ hb hgood]
@@ -181,14 +181,121 @@ controls other than TAB, and DEL), the server holds exactly the supplied names. 
 theorem multipart_roundtrip_exact (b : Bytes) (fields : List (Bytes × Bytes)) (files : List File)
     (hb : (10 : UInt8) ∉ b)
     (hfields : ∀ kv ∈ fields, FieldOK b kv) (hfiles : ∀ f ∈ files, FileOK b f)
+    (hfsafe : ∀ kv ∈ fields, ∀ c ∈ kv.1, headerUnsafe c = false)
     (hsafe : ∀ f ∈ files, (∀ c ∈ f.param, headerUnsafe c = false) ∧ (∀ c ∈ f.filename, headerUnsafe c = false)) :
     serverForm b (write b fields files) =
-      .ok (fields.map fieldItem ++ files.map fun f => .file f.param f.filename (seenCType f) f.content) := by
+      .ok ((fields.map fun kv => .field kv.1 kv.2) ++
+        files.map fun f => .file f.param f.filename (seenCType f) f.content) := by
   rw [multipart_roundtrip b fields files hb hfields hfiles]
   congr 2
-  apply List.map_congr_left
-  intro f hf
-  simp [fileItem, arrive_safe _ (hsafe f hf).1, arrive_safe _ (hsafe f hf).2]
+  · apply List.map_congr_left
+    intro kv hkv
+    simp [fieldItem, arrive_safe _ (hfsafe kv hkv)]
+  · apply List.map_congr_left
+    intro f hf
+    simp [fileItem, arrive_safe _ (hsafe f hf).1, arrive_safe _ (hsafe f hf).2]
+
+/-- **The error branch, exactly** (`writeMultiPart` since fixes/C17-6, C17-7): the body is
+written iff every field has a name, every file's content type is a valid header value and every
+extra Content-Disposition parameter name a token; otherwise the call fails. -/
+theorem writeChecked_ok_iff (b : Bytes) (fields : List (Bytes × Bytes)) (files : List File) :
+    (∃ body, writeChecked b fields files = .ok body) ↔
+      (∀ kv ∈ fields, kv.1 ≠ []) ∧
+      (∀ f ∈ files, (∀ c ∈ f.ctype, headerUnsafe c = false) ∧
+        ∀ p ∈ f.extra, p.1 ≠ [] ∧ ∀ c ∈ p.1, isTChar c = true) := by
+  unfold writeChecked
+  constructor
+  · rintro ⟨body, h⟩
+    cases h1 : checkAll checkField fields with
+    | error e => simp [h1] at h
+    | ok u =>
+      cases u
+      cases h2 : checkAll checkFile files with
+      | error e => simp [h1, h2] at h
+      | ok u =>
+        cases u
+        exact ⟨fun kv hkv => (checkField_ok kv).mp ((checkAll_ok _ _).mp h1 kv hkv),
+          fun f hf => (checkFile_ok f).mp ((checkAll_ok _ _).mp h2 f hf)⟩
+  · rintro ⟨h1, h2⟩
+    have e1 : checkAll checkField fields = .ok () :=
+      (checkAll_ok _ _).mpr fun kv hkv => (checkField_ok kv).mpr (h1 kv hkv)
+    have e2 : checkAll checkFile files = .ok () :=
+      (checkAll_ok _ _).mpr fun f hf => (checkFile_ok f).mpr (h2 f hf)
+    exact ⟨write b fields files, by simp [e1, e2]⟩
+
+theorem writeChecked_ok_eq (b : Bytes) (fields : List (Bytes × Bytes)) (files : List File) (body : Bytes)
+    (h : writeChecked b fields files = .ok body) :
+    body = write b fields files ∧ (∀ kv ∈ fields, checkField kv = .ok ()) ∧
+      ∀ f ∈ files, checkFile f = .ok () := by
+  unfold writeChecked at h
+  cases h1 : checkAll checkField fields with
+  | error e => simp [h1] at h
+  | ok u =>
+    cases u
+    cases h2 : checkAll checkFile files with
+    | error e => simp [h1, h2] at h
+    | ok u =>
+      cases u
+      simp only [h1, h2, Except.ok.injEq] at h
+      exact ⟨h.symm, (checkAll_ok _ _).mp h1, (checkAll_ok _ _).mp h2⟩
+
+/-- **multipart_roundtrip for ALL names**: whenever `writeMultiPart` produces a body at all, the
+server reads back the fields and files — for EVERY field name, file name and parameter value
+(any bytes: quotes, backslashes, CR/LF, other controls, non-ASCII, invalid UTF-8, any length),
+every content type and parameter name the writer accepted.  Nothing about names is assumed:
+what cannot be carried was refused (`writeChecked_ok_iff`).  Left as DOMAIN (`FileDomain`, not
+refused by the code and not a matter of bytes): file names non-empty (`SetFileUpload` refuses
+them earlier), parameter names distinct and without `*`, content type without surrounding
+blanks, contents free of the delimiter. -/
+theorem multipart_roundtrip_all_names (b : Bytes) (fields : List (Bytes × Bytes)) (files : List File)
+    (body : Bytes) (hb : (10 : UInt8) ∉ b)
+    (hw : writeChecked b fields files = .ok body)
+    (hfree : ∀ kv ∈ fields, BoundaryFree (delim b) (crlf ++ kv.2))
+    (hfiles : ∀ f ∈ files, FileDomain b f) :
+    serverForm b body = .ok (fields.map fieldItem ++ files.map fileItem) := by
+  obtain ⟨rfl, h1, h2⟩ := writeChecked_ok_eq b fields files body hw
+  exact multipart_roundtrip b fields files hb
+    (fun kv hkv => ⟨(checkField_ok kv).mp (h1 kv hkv), hfree kv hkv⟩)
+    (fun f hf => fileOK_of_checked b f (h2 f hf) (hfiles f hf))
+
+/-- No part-header injection, for ALL inputs the writer accepts: every byte of every part header
+line value is one `net/textproto` accepts (in particular no CR, no LF), so the header block of a
+part consists of exactly the lines the writer meant to write. -/
+theorem part_headers_valid (fields : List (Bytes × Bytes)) (files : List File)
+    (hfiles : ∀ f ∈ files, checkFile f = .ok () ∧ f.param ≠ [] ∧ f.filename ≠ []) :
+    (∀ kv ∈ fields, ∀ c ∈ fieldDisposition kv.1, validValueByte c = true) ∧
+    (∀ f ∈ files, (∀ c ∈ fileDisposition f, validValueByte c = true) ∧
+      (isStringEmpty f.ctype = false → ∀ c ∈ f.ctype, validValueByte c = true)) := by
+  refine ⟨fun kv _ => (fieldDisposition_value kv.1).2.1, fun f hf => ?_⟩
+  obtain ⟨hc, hp, hn⟩ := hfiles f hf
+  obtain ⟨hct, hkeys⟩ := (checkFile_ok f).mp hc
+  refine ⟨?_, fun _ c hcm => by simp [validValueByte, hct c hcm]⟩
+  intro c hcm
+  obtain ⟨-, -, -, -, hfd, -⟩ := header_consts
+  simp only [fileDisposition, List.mem_append, List.mem_flatMap] at hcm
+  rcases hcm with hcm | ⟨p, hpm, hcm⟩
+  · exact hfd c hcm
+  · apply cdParam_valid p ?_ c hcm
+    rw [fileParams_shape f hp hn] at hpm
+    simp only [List.mem_cons] at hpm
+    rcases hpm with rfl | rfl | hpm
+    · show ∀ x ∈ nameKey, isTokenChar x = true
+      decide
+    · show ∀ x ∈ filenameKey, isTokenChar x = true
+      decide
+    · exact fun x hx => tchar_token x ((hkeys p hpm).2 x hx)
+
+/-- What the code did BEFORE fixes/C17-7 (Go's `WriteField`, only `\` and `"` escaped): the field
+name `a` CR LF `X: y` puts a second header line `X: y"` into the part header — header injection
+(replayed on the real code by lanes `mpwrite`, `e2e`; class `c17-field-name-ctl`). -/
+theorem raw_field_name_injects :
+    (readHeaders 10 true (headerLine cdHeader (rawFieldDisposition [97, 13, 10, 88, 58, 32, 121]) ++ crlf)).toOption.map
+      (fun r => r.1.map (·.1)) = some [cdHeader, [88]] := by decide
+
+/-- …and after: one header line, and the name arrives percent-encoded. -/
+example :
+    (readHeaders 10 true (headerLine cdHeader (fieldDisposition [97, 13, 10, 88, 58, 32, 121]) ++ crlf)).toOption.map
+      (fun r => r.1.map (·.1)) = some [cdHeader] := by decide
 
 /-- The hypothesis `BoundaryFree` of `multipart_roundtrip` in plain words: it holds whenever
 the delimiter (CRLF `--` boundary) does not occur in CRLF ++ content and the boundary has no
@@ -214,7 +321,19 @@ example : (serverForm [66] (write [66] [([107], [118, 13, 10, 45, 45])]
 
 /- Non-vacuity of the hypotheses: the same field and file satisfy `FieldOK` / `FileOK`. -/
 example : FieldOK [66] ([107], [118, 13, 10, 45, 45]) :=
-  ⟨by decide, by decide, by unfold BoundaryFree; decide⟩
+  ⟨by decide, by unfold BoundaryFree; decide⟩
+
+/- …and a field whose NAME is `a` CR LF `X: y` `"` `\` NUL: accepted, arrives percent-encoded. -/
+set_option maxRecDepth 100000 in
+example : (match writeChecked [66] [([97, 13, 10, 88, 58, 32, 121, 34, 92, 0], [118])] [] with
+    | .ok body => (serverForm [66] body).toOption
+    | .error _ => none)
+    = some [.field [97, 37, 48, 68, 37, 48, 65, 88, 58, 32, 121, 34, 92, 37, 48, 48] [118]] := by decide
+
+/- the error branch is reachable: empty field name, CR in a content type, `"` in a parameter name -/
+example : writeChecked [66] [([], [118])] [] = .error .missingFieldName := rfl
+example : writeChecked [66] [] [⟨[102], [97], [], [116, 13, 10, 88], []⟩] = .error .badContentType := rfl
+example : writeChecked [66] [] [⟨[102], [97], [([120, 34], [1])], [116], []⟩] = .error .badParamKey := rfl
 
 example : FileOK [66] ⟨[102], [97, 9, 34, 92, 200], [([120, 45, 97], [1, 2])], [116, 47, 120], [13, 10, 45, 45, 65, 0]⟩ :=
   ⟨by decide, by decide, by unfold GoodParams; decide, by unfold CTypeOK; decide, by unfold BoundaryFree; decide⟩
@@ -339,14 +458,15 @@ theorem ordered_odd_fails (c : Cfg) (hm : isPayloadForbid c.method c.allowGet = 
 /-- **marshal_choice** — a value to marshal (and nothing that takes precedence: no form data,
 no multipart): without any Content-Type preset the JSON marshaller is used and the JSON
 content type is set; with a preset (request level first, else client level) containing
-"xml" the XML marshaller is used, otherwise the JSON marshaller; the preset type is kept. -/
+"xml" in any letter case (`+xml` suffixes and parameters included) the XML marshaller is used,
+otherwise the JSON marshaller; the preset type is kept. -/
 theorem marshal_choice (c : Cfg) (json xml : Option Bytes)
     (hm : isPayloadForbid c.method c.allowGet = false) (hmp : c.multipart = false)
     (ho : c.ordered = []) (hr : c.reqForm = []) (hc : c.clientForm = [])
     (hv : c.marshal = some (json, xml)) :
     dispatch c =
       if (effCT c).isEmpty then json.map (fun j => ⟨.marshalJson, some j, jsonCT⟩)
-      else if isInfix xmlWord (effCT c) then xml.map (fun x => ⟨.marshalXml, some x, effCT c⟩)
+      else if isXMLType (effCT c) then xml.map (fun x => ⟨.marshalXml, some x, effCT c⟩)
       else json.map (fun j => ⟨.marshalJson, some j, effCT c⟩) := by
   simp only [dispatch, hm, hmp, ho, hr, hc, hv, pairUp, mergeForm, addAll, List.foldl_nil,
     List.isEmpty_nil, Bool.false_eq_true, ↓reduceIte, Bool.not_true, Bool.or_self]
@@ -404,18 +524,40 @@ theorem form_dispatch_roundtrip (c : Cfg) (pairs : List Pair)
 /-- **content_type_matches_body** (multipart case) — a multipart request goes out under
 `multipart/form-data; boundary=<the boundary the body was written with>` and, for everything a
 multipart body can carry, the server reads back the ordered pairs, then the merged form data
-(in map order), then the files. -/
+(in map order), then the files.  Field names: ANY non-empty byte strings. -/
 theorem multipart_dispatch_roundtrip (c : Cfg) (pairs : List Pair)
     (hm : isPayloadForbid c.method c.allowGet = false) (hmp : c.multipart = true)
     (ho : pairUp c.ordered = some pairs) (hb : (10 : UInt8) ∉ c.boundary)
     (hfields : ∀ kv ∈ pairs ++ flatten (mergeForm c.reqForm c.clientForm), FieldOK c.boundary kv)
-    (hfiles : ∀ f ∈ c.files, FileOK c.boundary f) :
+    (hfiles : ∀ f ∈ c.files, checkFile f = .ok () ∧ FileDomain c.boundary f) :
     ∃ body, dispatch c = some ⟨.multipart, some body, formDataContentType c.boundary⟩ ∧
       serverForm c.boundary body =
         .ok ((pairs ++ flatten (mergeForm c.reqForm c.clientForm)).map fieldItem ++ c.files.map fileItem) := by
+  have e1 : checkAll checkField (pairs ++ flatten (mergeForm c.reqForm c.clientForm)) = .ok () :=
+    (checkAll_ok _ _).mpr fun kv hkv => (checkField_ok kv).mpr (hfields kv hkv).name_ne
+  have e2 : checkAll checkFile c.files = .ok () := (checkAll_ok _ _).mpr fun f hf => (hfiles f hf).1
   refine ⟨write c.boundary (pairs ++ flatten (mergeForm c.reqForm c.clientForm)) c.files,
-    by simp [dispatch, hm, hmp, ho], ?_⟩
-  exact multipart_roundtrip c.boundary _ c.files hb hfields hfiles
+    by simp [dispatch, hm, hmp, ho, writeChecked, e1, e2], ?_⟩
+  exact multipart_roundtrip c.boundary _ c.files hb hfields
+    (fun f hf => fileOK_of_checked c.boundary f (hfiles f hf).1 (hfiles f hf).2)
+
+/-- The rejected class fails the CALL (nothing is sent): a field without a name, a content type
+that is not a header value, a parameter name that is not a token. -/
+theorem multipart_dispatch_rejects (c : Cfg) (pairs : List Pair)
+    (hm : isPayloadForbid c.method c.allowGet = false) (hmp : c.multipart = true)
+    (ho : pairUp c.ordered = some pairs)
+    (hbad : (∃ kv ∈ pairs ++ flatten (mergeForm c.reqForm c.clientForm), kv.1 = []) ∨
+      ∃ f ∈ c.files, checkFile f ≠ .ok ()) :
+    dispatch c = none := by
+  have hno : ¬ ∃ body, writeChecked c.boundary (pairs ++ flatten (mergeForm c.reqForm c.clientForm)) c.files = .ok body := by
+    rintro ⟨body, hw⟩
+    obtain ⟨-, h1, h2⟩ := writeChecked_ok_eq _ _ _ _ hw
+    rcases hbad with ⟨kv, hkv, he⟩ | ⟨f, hf, he⟩
+    · exact absurd he ((checkField_ok kv).mp (h1 kv hkv))
+    · exact he (h2 f hf)
+  cases hw : writeChecked c.boundary (pairs ++ flatten (mergeForm c.reqForm c.clientForm)) c.files with
+  | ok body => exact absurd ⟨body, hw⟩ hno
+  | error e => simp [dispatch, hm, hmp, ho, hw]
 
 end Dispatch
 
